@@ -29,11 +29,15 @@ def units(tier, seed):
         if m >= R.INF:
             continue
         offs = (0, 1, 2) if tier != "quick" else (0, 1)
+        if spec["name"].startswith(("S20", "S3:", "S9", "S18")):
+            offs = (0, 1, 2, 3, 4)  # recursive productions of minimum depth >= 2-3 need slack above the minimum
         for dec in ("maxdepth", "full", "pigrow"):
             us.append({"kind": "reject", "spec": spec, "rep": "tree", "decider": dec, "depth": m - 1, "min": m})
             for off in offs:
                 us.append({"kind": "tree-create", "spec": spec, "decider": dec, "depth": m + off, "min": m,
                            "max_execs": 1500 if tier == "quick" else 20000})
+        for off in offs:
+            us.append({"kind": "full-init", "spec": spec, "depth": m + off, "min": m, "max_execs": 600 if tier == "quick" else 6000})
         us.append({"kind": "reject", "spec": spec, "rep": "dsge", "depth": m - 1, "min": m})
         for off in offs:
             us.append({"kind": "map", "spec": spec, "rep": "dsge", "depth": m + off, "min": m,
@@ -102,6 +106,54 @@ def run_reject(unit) -> UnitResult:
     return r
 
 
+def run_full_init(unit) -> UnitResult:
+    """FullInitializer(max_depth=d) and the full half of PositionIndependentGrowInitializer(d) respect d."""
+    from geneticengine.representations.tree.operators import FullInitializer, PositionIndependentGrowInitializer
+    from geneticengine.representations.tree.treebased import TreeBasedRepresentation
+    from geneticengine.representations.tree.initializations import MaxDepthDecider
+
+    r = UnitResult()
+    ctx = P.open_ctx(unit)
+    try:
+        g = ctx.g
+        if g is None:
+            return r
+        d = unit["depth"]
+        for name in ("FullInitializer", "PositionIndependentGrowInitializer"):
+            def run(src, name=name):
+                rep = TreeBasedRepresentation(g, MaxDepthDecider(src, g, max(d, g.get_min_tree_depth())))
+                init = FullInitializer(d) if name == "FullInitializer" else PositionIndependentGrowInitializer(d)
+                n = 1 if name == "FullInitializer" else 2
+                inds = list(init.initialize(None, rep, src, n))
+                return inds[-1].genotype  # the individual made by the full method
+
+            st = ExploreStats()
+            for ex in explore(run, max_execs=unit["max_execs"], horizon=400, stats=st):
+                r.executions += 1
+                if ex.capped:
+                    continue
+                w = {"unit": P.clean_unit(unit), "choices": list(ex.choices), "initializer": name}
+                if ex.exc is not None:
+                    r.add_violation(Violation(PROP, f"{name}.initialize", "feasible-limit-fails",
+                                              {"rep": "tree", "exc": type(ex.exc).__name__, "at": exc_site(ex.exc), "decider": "full-init"}, w,
+                                              f"{ctx.spec['name']}: {name}({d}) (minimum {unit['min']}): {exc_brief(ex.exc)}"))
+                    continue
+                r.count("programs_checked")
+                tm = R.term(ex.result)
+                depth = R.term_depth(tm)
+                if depth == d:
+                    r.nontrivial += 1
+                if depth > d:
+                    r.add_violation(Violation(PROP, f"{name}.initialize", "depth-exceeded", {"rep": "tree", "op": "init", "decider": "full-init"},
+                                              dict(w, program=R.show(tm)[:300]),
+                                              f"{ctx.spec['name']}: {name}({d}) produced depth {depth}: {R.show(tm)[:160]}"))
+            r.truncated = r.truncated or st.truncated
+        r.states = 1
+    finally:
+        ctx.bundle.cleanup()
+    return r
+
+
 def oracle(ctx, ev, r, tm):
     unit = ctx.unit
     d = unit["depth"]
@@ -129,6 +181,8 @@ def oracle(ctx, ev, r, tm):
 def run_unit(unit) -> UnitResult:
     if unit["kind"] == "reject":
         return run_reject(unit)
+    if unit["kind"] == "full-init":
+        return run_full_init(unit)
     return P.drive(unit, oracle)
 
 
